@@ -204,6 +204,7 @@ def parseQOp (a : List String) : M QOp := do
   | "get" => return .get (← unh (← argAt a 1))
   | "has" => return .has (← unh (← argAt a 1))
   | "mut" => return .getMutSet (← unh (← argAt a 1)) (← unh (← argAt a 2))
+  | "trunc" => return .getMutSet (← unh (← argAt a 1)) []    -- emptied in place: the value is the empty string
   | "rm" => return .remove (← unh (← argAt a 1))
   | "ent" =>
     let k ← unh (← argAt a 1)
